@@ -1,8 +1,13 @@
 import CharsetProof.Lemmas.Loop
 import CharsetProof.Props.C01
 import CharsetProof.Props.C06
+import CharsetProof.Props.C06b
 import CharsetProof.Props.C09
 open Charset
+#print axioms C06_declared_is_label
+#print axioms C06_declared_zone
+#print axioms C06_declared_ascii_only
+#print axioms scanDeclared_none_without_ce
 #print axioms C06_probeOrder_cons
 #print axioms C06_order_head
 #print axioms C06_loop
